@@ -211,6 +211,13 @@ def run(ctx: Ctx) -> None:
     # -------- property oracle on the implementation ---------------------------------------------
     for i in range(N):
         oracle_one(ctx, B, D, V, rnd)
+    # the recorded finding, replayed on every run (Properties/C18.v: C18_parse_bracket_find_refuted)
+    t = '(a, m["("](b))'
+    got = guarded(lambda: B.parse_bracket(t, '()'))
+    ctx.evaluations += 1
+    if got != ('ok', [t, '(b)']):
+        ctx.violation('parse_bracket:find-from-entry-begin', 'parse_bracket cuts a group from a bracket inside a quoted string that stands directly in front of it',
+                      dict(input=dict(helper='parse_bracket', text=t, brackets='()'), oracle_result=[t, '(b)'], impl_result=got))
 
 
 def oracle_one(ctx, B, D, V, rnd):
